@@ -156,9 +156,11 @@ class _OutOfDraws(Exception):
     pass
 
 
-def h_demo(d1: int, d2: int, d3: int, nalloc: int, commit_at: int, abort_at: int = -1) -> None:
+def h_demo(d1: int, d2: int, d3: int, nalloc: int, commit_at: int, abort_at: int = -1, inflight: int = -1, f: int = 0) -> None:
     """DemoStorage.new_oid with symbolic random draws never returns an id present in base, in changes,
-    or issued before."""
+    or issued before.  inflight >= 0: before allocation number `inflight` another client's transaction stores a
+    record under the foreign (symbolic) id f and stays in flight; it finishes after the allocations - f then
+    identifies a present object and must not have been handed out in between."""
     with untraced():
         env = T.Env()
         base = env.mappingstorage()
@@ -173,13 +175,24 @@ def h_demo(d1: int, d2: int, d3: int, nalloc: int, commit_at: int, abort_at: int
         h.commit([(T.oid(75), b'changes-75')])
         present = [T.oid(70), T.oid(71), T.oid(75)]
     for d in (d1, d2, d3):
-        assume(64 <= d <= 82)
+        assume((72 <= d <= 78) if inflight >= 0 else (64 <= d <= 82))
     try:
         DM.random = _Draws([d1, d2, d3])
         issued = []
+        t_f = None
         try:
             for i in range(nalloc):
+                if i == inflight:
+                    assume(72 <= f <= 78)
+                    with untraced():
+                        f0 = T.oid(realize(f))
+                    assume(f0 not in present and f0 not in issued)
+                    t_f = T.meta(b'u', b'copied in under a foreign id')
+                    s.tpc_begin(t_f)
+                    s.store(f0, T.Z64, b'foreign', '', t_f)
                 n = s.new_oid()
+                if t_f is not None:
+                    check(n != f0, 'demo storage issued the id of a record that a transaction in flight has stored', n)
                 check(n not in present, 'demo storage issued an id that exists in a layer', n)
                 check(n not in issued, 'demo storage issued the same id twice', n)
                 issued.append(n)
@@ -200,6 +213,10 @@ def h_demo(d1: int, d2: int, d3: int, nalloc: int, commit_at: int, abort_at: int
                     # traced: the storage's bookkeeping sets may hold other (symbolic) issued ids
                     h.commit([(n0, b'uses-this-id')])
                     present.append(n0)
+            if t_f is not None:
+                s.tpc_vote(t_f)
+                s.tpc_finish(t_f)
+                check(ZODB.utils.load_current(s, f0)[0] == b'foreign', 'record stored under the foreign id is not served after its commit')
         except _OutOfDraws:
             assume(False)          # more than 3 redraws needed: outside the bound
     finally:
@@ -298,11 +315,12 @@ HARNESSES = [
     Harness('demo', h_demo,
             decides='DemoStorage.new_oid never returns an id present in base or changes, or issued before, whatever the random draws',
             symbolic='3 random draws (ints in a +-6 window around all ids present/issued)',
-            bounds='<= 3 allocations, <= 3 redraws; base {70,71}, changes {75}, first draw 74', oracle='set difference',
+            bounds='<= 3 allocations, <= 3 redraws; base {70,71}, changes {75}, first draw 74; with a foreign in-flight id: id and draws in 72..78', oracle='set difference',
             code=['DemoStorage.new_oid', 'DemoStorage.tpc_finish (_issued_oids bookkeeping)'], pure_python=True,
-            quick=dict(timeout=150, shards=shards(nalloc=[2], commit_at=[0, -1], abort_at=[-1]) + shards(nalloc=[3], commit_at=[1], abort_at=[-1])
-                  + shards(nalloc=[2], commit_at=[-1], abort_at=[0])),
-            thorough=dict(timeout=900, shards=shards(nalloc=[1, 2, 3], commit_at=[-1, 0, 1], abort_at=[-1]) + shards(nalloc=[2, 3], commit_at=[-1, 1], abort_at=[0]))),
+            quick=dict(timeout=150, shards=shards(nalloc=[2], commit_at=[0, -1], abort_at=[-1], inflight=[-1], f=[0]) + shards(nalloc=[3], commit_at=[1], abort_at=[-1], inflight=[-1], f=[0])
+                  + shards(nalloc=[2], commit_at=[-1], abort_at=[0], inflight=[-1], f=[0]) + [dict(nalloc=2, commit_at=-1, abort_at=-1, inflight=0), dict(nalloc=2, commit_at=-1, abort_at=-1, inflight=1)]),
+            thorough=dict(timeout=900, shards=shards(nalloc=[1, 2, 3], commit_at=[-1, 0, 1], abort_at=[-1], inflight=[-1], f=[0]) + shards(nalloc=[2, 3], commit_at=[-1, 1], abort_at=[0], inflight=[-1], f=[0])
+                          + shards(nalloc=[2, 3], commit_at=[-1], abort_at=[-1], inflight=[0, 1]))),
     Harness('concurrent', h_concurrent,
             decides='two allocators interleaved at any lock operation or source line of new_oid() get different ids',
             symbolic='injection point `at` over lock operations and source lines of the new_oid in use',
